@@ -120,6 +120,8 @@ inline Result check_roundtrip(const GeomDef &g, const EncCfg &cfg, mc::Ctx &ctx,
   const PointCloud &src = g.is_mesh ? *mesh : *cloud;
   EncCfg c = cfg;
   if (check_counts) c.track = true;
+  // C09: a draco::Encoder object is long-lived; what it reports must describe the LAST encode, also after it encoded a mesh before
+  if (check_counts && c.use_plain_encoder) c.preface_mesh_encode = true;
   EncResult enc;
   {
     // A single request above the harness's allocation cap (mc/alloc_env.h) is an
